@@ -11,6 +11,7 @@ mod rng;
 mod rot;
 mod rt;
 mod spec;
+mod sstr;
 
 use std::collections::HashMap;
 
@@ -88,6 +89,7 @@ fn main() {
         "c01" => rt::main(&a, gen_dom::Fmt::Binary),
         "c02" => rt::main(&a, gen_dom::Fmt::Xml),
         "domops" => domops::main(&a),
+        "sstr" => sstr::main(&a),
         "c12read" => c12x::read_main(&a),
         "uidnow" => c12x::now_main(&a),
         "foreigngen" => foreign::gen_main(&a),
